@@ -376,3 +376,59 @@ Proof.
   - rewrite (gen_all_moves_for1 p Hs) by (try lia; apply Forall_forall; intros x Hx; apply in_zrange; exact Hx).
     reflexivity.
 Qed.
+
+(* ====================== Config.flat_count / capstone_count, Position.from_squares ====================== *)
+(* the ValueError("Wrong board size") of from_squares is the hand model's None *)
+Definition embed_value {A} (o : option A) : res A :=
+  match o with Some v => Ok v | None => Crash ValueError end.
+
+(* DEFAULT_PIECES[size] / DEFAULT_CAPS[size] are read only when no custom count is given; then the size must index
+   the nine-entry tables (a negative size would wrap, a size above 8 raises IndexError) *)
+Definition config_ok (c : config) : Prop :=
+  (cpieces c = None -> 0 <= csize c <= 8) /\ (ccaps c = None -> 0 <= csize c <= 8).
+
+Lemma gen_flat_count_eq c : (cpieces c = None -> 0 <= csize c <= 8) -> GameGen.flat_count c = Ok (flat_count c).
+Proof.
+  intros H. unfold GameGen.flat_count, flat_count. destruct (cpieces c) as [n|]; [reflexivity|].
+  specialize (H eq_refl). rewrite (py_getitem_ok 0); [reflexivity|]. change (zlen GameGen.Config_DEFAULT_PIECES) with 9. lia.
+Qed.
+
+Lemma gen_capstone_count_eq c : (ccaps c = None -> 0 <= csize c <= 8) -> GameGen.capstone_count c = Ok (capstone_count c).
+Proof.
+  intros H. unfold GameGen.capstone_count, capstone_count. destruct (ccaps c) as [n|]; [reflexivity|].
+  specialize (H eq_refl). rewrite (py_getitem_ok 0); [reflexivity|]. change (zlen GameGen.Config_DEFAULT_CAPS) with 9. lia.
+Qed.
+
+(* the two counting loops: counts = ([white stones, white caps], [black stones, black caps]) *)
+Ltac counts_eq :=
+  apply f_equal; apply f_equal2; (apply f_equal2; [lia|apply f_equal2; [lia|reflexivity]]).
+Lemma gen_from_squares_for2 : forall st w0 w1 b0 b1,
+  GameGen.from_squares_for2 ([w0; w1], [b0; b1]) st =
+  Ok ([w0 + cs (is_stone_of White) st; w1 + cs (is_cap_of White) st],
+      [b0 + cs (is_stone_of Black) st; b1 + cs (is_cap_of Black) st]).
+Proof.
+  induction st as [|q st IH]; intros w0 w1 b0 b1.
+  - cbn. rewrite !Z.add_0_r. reflexivity.
+  - cbn [GameGen.from_squares_for2]. rewrite !cs_cons.
+    destruct q as [c k]; destruct c, k; cbn -[Z.add cs]; try change (Pos.to_nat 1) with 1%nat; cbn -[Z.add cs];
+      rewrite IH; counts_eq.
+Qed.
+
+Lemma gen_from_squares_for1 : forall sqs w0 w1 b0 b1,
+  GameGen.from_squares_for1 ([w0; w1], [b0; b1]) sqs =
+  Ok ([w0 + count_pieces (is_stone_of White) sqs; w1 + count_pieces (is_cap_of White) sqs],
+      [b0 + count_pieces (is_stone_of Black) sqs; b1 + count_pieces (is_cap_of Black) sqs]).
+Proof.
+  induction sqs as [|s sqs IH]; intros w0 w1 b0 b1.
+  - cbn [GameGen.from_squares_for1]. rewrite !count_nil, !Z.add_0_r. reflexivity.
+  - cbn [GameGen.from_squares_for1]. rewrite gen_from_squares_for2. cbn [bind]. rewrite IH, !count_cons. counts_eq.
+Qed.
+
+Theorem gen_from_squares_eq cfg sqs pl : config_ok cfg ->
+  GameGen.from_squares cfg sqs pl = embed_value (from_squares cfg sqs pl).
+Proof.
+  intros (Hp & Hc). unfold GameGen.from_squares, from_squares, len, zlen, stack.
+  destruct (Z.of_nat (length sqs) =? csize cfg * csize cfg); cbn [negb]; [|reflexivity].
+  cbv zeta. rewrite gen_from_squares_for1. cbn [bind].
+  rewrite (gen_flat_count_eq cfg Hp), (gen_capstone_count_eq cfg Hc). cbn. reflexivity.
+Qed.
